@@ -37,6 +37,7 @@ class FIXTester:
         self.registered_orders = {}
         self.schema = schema
         self._order_id = 0
+        self._order_ids = {}
         self._exec_id = 10000
         self.conn_init = connection
         self.conn_accept = None
@@ -335,7 +336,12 @@ class FIXTester:
         m[FTag.ClOrdID] = clord_id
 
         if order.order_id is None:
-            order_id = self._next_order_id()
+            # one OrderID per order (by root ClOrdID), also before the order
+            # has processed the first report
+            root = order.clord_id_root
+            if root not in self._order_ids:
+                self._order_ids[root] = self._next_order_id()
+            order_id = self._order_ids[root]
         else:
             order_id = order.order_id
 
